@@ -59,6 +59,13 @@ def _env():
             fh.write("SECRET")
     with open(os.path.join(base, "secret.txt"), "w") as fh:
         fh.write("SECRET")
+    # second layout: the root is the ONLY entry of its parent, which is the only entry of ITS parent, so a
+    # deletion that climbs out of an emptied root has nothing to stop it before <base>/lonely
+    lonely = os.path.join(base, "lonely")
+    root2 = os.path.join(lonely, "home", "alice", "ftp")
+    os.makedirs(root2)
+    with open(os.path.join(lonely, "keep.txt"), "w") as fh:
+        fh.write("keep")
     log = []
     state = {"on": False}
     watched = ("open", "os.listdir", "os.scandir", "os.mkdir", "os.rmdir", "os.remove", "os.rename", "os.chmod",
@@ -74,7 +81,11 @@ def _env():
                 pb = os.fsencode(p)
                 if pb.startswith(ignore) or pb.endswith(b".py"):
                     continue
-                log.append(pb)
+                kind = event
+                if event == "open":
+                    fl = args[2] if len(args) > 2 and isinstance(args[2], int) else 0
+                    kind = "open-w" if fl & (os.O_WRONLY | os.O_RDWR) else "open"
+                log.append((kind, pb))
 
     sys.addaudithook(hook)
     from twisted.logger import globalLogBeginner
@@ -82,13 +93,42 @@ def _env():
         globalLogBeginner.beginLoggingTo([lambda e: None], redirectStandardIO=False, discardBuffer=True)
     except Exception:
         pass
-    _ENV.update(base=base, root=root, log=log, state=state)
+    _ENV.update(base=base, root=root, root2=root2, lonely=lonely, log=log, state=state)
     return _ENV
+
+
+def _root_of(case):
+    E = _env()
+    return E["root2"] if case.get("layout") == "lonely" else E["root"]
+
+
+def _outside_snapshot(case):
+    """everything in the scratch area that is outside the FTP root"""
+    E = _env()
+    root = _root_of(case)
+    out = set()
+    for dp, dns, fns in os.walk(E["base"]):
+        if dp == root:
+            dns[:] = []          # the root itself is not "outside" (RMD / may remove an empty root)
+            continue
+        elif dp == E["root"] or dp == E["root2"]:
+            dns[:] = []          # the other layout's root is reset separately
+            fns = []
+        out.add(dp)
+        out.update(os.path.join(dp, fn) for fn in fns)
+    return out
 
 
 def _reset_tree():
     """undo what a session may have created / removed (sessions only touch names starting with 'mk' or 'up')"""
     E = _env()
+    # the lonely root starts every session empty (and is re-created should a session have removed it)
+    shutil.rmtree(E["root2"], ignore_errors=True)
+    os.makedirs(E["root2"], exist_ok=True)
+    keep = os.path.join(E["lonely"], "keep.txt")
+    if not os.path.exists(keep):
+        with open(keep, "w") as fh:
+            fh.write("keep")
     root = E["root"]
     for d, ds, fs in os.walk(root, topdown=False):
         for x in fs:
@@ -147,7 +187,9 @@ def _session(case) -> str:
     proto.portal = None
     t = StringTransport()
     proto.makeConnection(t)
-    proto.shell = SpyShell(ftp.FTPShell(FilePath(E["root"])), calls)
+    proto.shell = SpyShell(ftp.FTPShell(FilePath(_root_of(case))), calls)
+    before = _outside_snapshot(case)
+    groups = []
     proto.state = proto.AUTHED
     proto.workingDirectory = []
     out = []
@@ -156,6 +198,7 @@ def _session(case) -> str:
     try:
         for c in case["cmds"]:
             n0 = len(calls)
+            l0 = len(E["log"])
             needs_dtp = c[0] in ("LIST", "NLST", "RETR", "STOR")
             dtp = None
             if needs_dtp:
@@ -186,12 +229,17 @@ def _session(case) -> str:
                 proto.dtpInstance = None
             got = calls[n0:]
             out.append("+".join(show(s) for call in got for s in call) if got else "!")
+            groups.append(c[0] + "=" + ",".join(ev + ":" + pb.hex() for ev, pb in E["log"][l0:]))
     finally:
         E["state"]["on"] = False
     wd = list(proto.workingDirectory)
     proto.connectionLost(TFailure(ConnectionDone()))
-    acc = sorted(set(E["log"]))
-    return ";".join(out) + "|" + show(wd) + " #" + ",".join(p.hex() for p in acc)
+    after = _outside_snapshot(case)
+    changed = sorted((before - after) | (after - before))
+    tail = "/".join(groups)
+    if changed:
+        tail += " CHANGED:" + ",".join(os.fsencode(x).hex() for x in changed[:4])
+    return ";".join(out) + "|" + show(wd) + " #" + tail
 
 
 def impl(case) -> str:
@@ -239,14 +287,29 @@ def oracle(case, obs):
         if rs[:len(ps)] != ps or b".." in rs:
             return Failure(case, f"_path returned {r!r}, outside {root!r}", "shell-path-escape")
         return None
-    E = _env()
-    root = os.fsencode(E["root"])
-    acc = obs.split(" #", 1)[1] if " #" in obs else ""
-    for h in filter(None, acc.split(",")):
-        p = bytes.fromhex(h)
-        real = os.path.realpath(p)
-        if not (real == root or real.startswith(root + b"/")) or b"\x00" in p:
-            return Failure(case, f"the FTP server touched {p!r}, outside its root {root!r}", "ftp-escape")
+    root = os.fsencode(_root_of(case))
+    tail = obs.split(" #", 1)[1] if " #" in obs else ""
+    changed = ""
+    if " CHANGED:" in tail:
+        tail, changed = tail.split(" CHANGED:", 1)
+    for group in filter(None, tail.split("/")):
+        cmd, _, evs = group.partition("=")
+        evs = [e.split(":") for e in evs.split(",") if e]
+        for ev, h in evs:
+            p = bytes.fromhex(h)
+            real = os.path.realpath(p)
+            inside = real.startswith(root + b"/")
+            if b"\x00" in p or not (inside or real == root):
+                return Failure(case, f"{cmd}: the FTP server touched {p!r} ({ev}), outside its root {root!r}", "ftp-escape")
+        # RMD removes one directory, DELE one file (IFTPShell.removeDirectory / removeFile)
+        if cmd == "RMD" and sum(1 for ev, _ in evs if ev == "os.rmdir") > 1:
+            return Failure(case, "RMD removed more than the one directory it names: "
+                           + ", ".join(repr(bytes.fromhex(h)) for ev, h in evs if ev == "os.rmdir"), "rmd-removes-ancestors")
+        if cmd == "DELE" and sum(1 for ev, _ in evs if ev in ("os.remove", "os.rmdir")) > 1:
+            return Failure(case, "DELE removed more than one entry", "dele-removes-more")
+    if changed:
+        names = [bytes.fromhex(h) for h in changed.split(",")]
+        return Failure(case, f"the session changed the file system outside the root: {names!r}", "ftp-outside-modified")
     return None
 
 
@@ -310,6 +373,37 @@ def _rand_cmd(rng, mkn):
     return [op, p]
 
 
+def _lonely_session(rng):
+    """ordinary use, no path trickery: build something in an EMPTY root that is the only entry of its parent,
+    then take it apart again, often completely (so that the root ends up empty)"""
+    cmds, dirs, files = [], [], []
+    for _ in range(rng.randrange(1, 4)):
+        depth = rng.randrange(1, 4)
+        path = "/".join(f"mk{rng.randrange(2)}" for _ in range(depth))
+        cmds.append(["MKD", rng.choice(["", "/"]) + path])
+        for d in range(1, depth + 1):
+            sub = "/".join(path.split("/")[:d])
+            if sub not in dirs:
+                dirs.append(sub)
+        if rng.random() < 0.4:
+            f = path + f"/up{rng.randrange(2)}"
+            cmds.append(["STOR", f])
+            if f not in files:
+                files.append(f)
+        if rng.random() < 0.3:
+            cmds.append(rng.choice([["LIST", ""], ["NLST", ""], ["CWD", "/"], ["CDUP"], ["SIZE", path], ["CWD", ".."]]))
+    keep = rng.random() < 0.25
+    for f in files:
+        if not keep or rng.random() < 0.5:
+            cmds.append(["DELE", "/" + f])
+    for d in sorted(dirs, key=lambda x: -x.count("/")):
+        if not keep or rng.random() < 0.5:
+            cmds.append(["RMD", rng.choice(["", "/"]) + d])
+    if rng.random() < 0.15:
+        cmds.append(["RMD", "/"])
+    return cmds
+
+
 def _exhaustive(alpha, maxlen):
     for n in range(0, maxlen + 1):
         for w in itertools.product(alpha, repeat=n):
@@ -333,6 +427,8 @@ def gen(rng, tier):
     for _ in range(200 if quick else 1500):
         cmds = [_rand_cmd(rng, 0) for _ in range(rng.randrange(1, 9))]
         cases.append({"k": "sess", "cmds": cmds})
+    for _ in range(120 if quick else 1500):
+        cases.append({"k": "sess", "layout": "lonely", "cmds": _lonely_session(rng)})
     return cases
 
 
@@ -348,6 +444,8 @@ def corpus():
         {"k": "sess", "cmds": [["CWD", "a"], ["CWD", "../../rootsecret"], ["RETR", "../../secret.txt"], ["CDUP"], ["CDUP"],
                                ["RETR", "../rootsecret/s.txt"], ["LIST", "/../"], ["CWD", "/a/b"], ["RETR", "h.txt"],
                                ["STOR", "../../../up0"], ["MKD", "/../mk0"], ["RN", "/f.txt", "../mk1"], ["DELE", "../../../secret.txt"]]},
+        {"k": "sess", "layout": "lonely", "cmds": [["MKD", "mk0/mk1"], ["RMD", "mk0/mk1"], ["RMD", "mk0"]]},
+        {"k": "sess", "layout": "lonely", "cmds": [["MKD", "mk0"], ["STOR", "mk0/up0"], ["DELE", "mk0/up0"], ["RMD", "/mk0"], ["RMD", "/"]]},
         {"k": "sess", "cmds": [["CWD", "a/b/c"], ["CDUP"], ["NLST", ""], ["SIZE", "h.txt"], ["MDTM", "../g.txt"], ["RMD", "/mk0"]]},
     ]
 
@@ -376,7 +474,7 @@ def to_coq(case):
             cmds.append(f"Ren {cstr(c[1])} {cstr(c[2])}")
         else:
             cmds.append(f"Op {cstr(c[1])}")
-    dirs = coq_list([segl(d) for d in DIRS], "(list bytes)")
+    dirs = coq_list([segl(d) for d in ([[]] if case.get("layout") == "lonely" else DIRS)], "(list bytes)")
     return f"CSess {dirs} {coq_list(cmds, 'cmd')}"
 
 
@@ -400,12 +498,15 @@ SPEC = Spec(
     to_coq=to_coq,
     model_equal=model_equal,
     nontrivial=lambda c, o: c["k"] != "seg" or o != "!",
-    histogram=lambda c, o: c["k"] + (":refused" if o in ("!", "X") else ""),
+    histogram=lambda c, o: c["k"] + (":" + c["layout"] if c.get("layout") else "") + (":refused" if o in ("!", "X") else ""),
     rule="toSegments for EVERY path over {'/','.','a',NUL} up to length 3-4 (thorough 5) under cwd [], [a], [a,b], plus "
          "random hostile paths ('..' runs aimed at prefix-sharing siblings of the root, NUL, backslash, empty "
          "segments); FTPShell._path on random segment lists (incl. dirty ones) for roots /, //, /srv/ftp, /tmp/foo; "
          "sessions of 1-8 commands (CWD CDUP LIST NLST SIZE MDTM RETR STOR DELE MKD RMD RNFR/RNTO) against a real "
-         "FTP protocol object and FTPShell on a scratch tree; non-trivial = accepted path, path case or session; "
+         "FTP protocol object and FTPShell on a scratch tree, plus 'lonely' sessions (the root is empty and the only "
+         "entry of its parent's only entry: MKD/STOR build a tree, DELE/RMD take it apart, often completely); the audit "
+         "covers reads, creations, deletions and renames, each RMD may rmdir one directory only, and everything outside "
+         "the root is compared before/after each session; non-trivial = accepted path, path case or session; "
          "distinct by (case, observation)",
     trusted=["hand-written model coq/C54/Model.v (+ C26's model of FilePath.descendant and coq/Lib/PyPath.v)",
              "strings are code-point lists; the harness drives the control channel in latin-1 so that every code "
